@@ -471,8 +471,13 @@ func CompileRegexp(re *syntax.Regexp, config Config) (*Engine, error) {
 		})
 		literals = extractor.ExtractPrefixes(re)
 
-		// Build prefilter from prefix literals
-		if literals != nil && !literals.IsEmpty() {
+		// Build prefilter from prefix literals.
+		// A literal set with partial coverage (alternation branches dropped when
+		// MaxLiterals overflowed) is not a necessary condition for a match, so it
+		// must not drive any skip-ahead: the DFA and PikeVM jump from a start
+		// state to the next candidate and would step over matches of the
+		// branches that were dropped.
+		if literals != nil && !literals.IsEmpty() && !literals.IsPartialCoverage() {
 			builder := prefilter.NewBuilder(literals, nil)
 			pf = builder.Build()
 		}
